@@ -172,7 +172,7 @@ fn main() {
                         let bare_power = matches!(dst, Space::Rgb(s) | Space::Hsl(s) | Space::Hsv(s) | Space::Hwb(s) if matches!(s.tf, pvmon::refmodel::transfer::Tf::Adobe | pvmon::refmodel::transfer::Tf::P3Gamma));
                         let class = if got.iter().any(|c| !c.is_finite()) && bare_power && dst.anchor().map_or(false, |a| { let lin = if same { mid } else { mat_vec(&a.xyz_to_rgb(), mid) }; let n = lin.iter().fold(1.0f64, |a, c| a.max(c.abs())); lin.iter().any(|c| *c < 1e-6 * n) }) {
                             "nonfinite:bare_power_tf_negative_linear"
-                        } else if got.iter().any(|c| !c.is_finite()) && matches!(dst, Space::Hsl(_)) && (want[2] - 1.0).abs() <= 1e-6 {
+                        } else if got.iter().any(|c| !c.is_finite()) && matches!(dst, Space::Hsl(_)) && src.anchor() != dst.anchor() && (want[2] - 1.0).abs() <= 1e-6 {
                             "nonfinite:hsl_white_overshoot"
                         } else if got.iter().any(|c| !c.is_finite()) {
                             "nonfinite"
